@@ -136,4 +136,27 @@ def step (s : State) : Event → State
 
 def run (s : State) (evs : List Event) : State := evs.foldl step s
 
+/-! ### the client side (client.py `_pyroInvoke` 229-286, connection handshake 340-357) -/
+
+/-- what one `_pyroInvoke` meets, as far as `current_context.response_annotations` is concerned -/
+structure ClientCall where
+  connects : Bool               -- a handshake happens inside this call (reconnect of a proxy that knows its metadata;
+                                -- a fresh proxy connects earlier, in __getattr__, before the per-call reset)
+  handshakeAnns : List Nat      -- annotation keys on the CONNECTOK answer
+  reply : Option (List Nat)     -- annotation keys on the reply that was read; none = oneway / failed before a reply was read
+  deriving Repr, DecidableEq
+
+/-- the client's response_annotations after the call, given what they were before it -/
+def clientAfter (_before : List Nat) (c : ClientCall) : List Nat :=
+  let ra : List Nat := []                                                      -- `response_annotations = {}` first
+  let ra := if c.connects && !c.handshakeAnns.isEmpty then c.handshakeAnns else ra   -- `if msg.annotations:` (handshake)
+  match c.reply with
+  | some anns => if anns.isEmpty then ra else anns                             -- `if msg.annotations:` (reply)
+  | none => ra
+
+/-- what the client observes after each call of a sequence -/
+def clientRun : List Nat → List ClientCall → List (List Nat)
+  | _, [] => []
+  | before, c :: cs => clientAfter before c :: clientRun (clientAfter before c) cs
+
 end Pyro.Context
